@@ -90,7 +90,7 @@ def gen_schedule(rng, n, boundaries, allow_empty=True, max_chunks=6000,
         ks = [k for k in UNIFORM_SIZES if max_uniform_ok(n, k, max_chunks)]
         k = rng.choice(ks) if ks else n
         fam = 'uniform(%d)' % k
-        return fam, _maybe_empty(rng, rle(uniform_sizes(n, k)), allow_empty)
+        return fam, _maybe_empty(rng, rle(uniform_sizes(n, k)), allow_empty, max_chunks)
     elif fam == 'boundary':
         k = rng.randint(1, min(4, len(boundaries)))
         bs = rng.sample(boundaries, k)
@@ -125,14 +125,24 @@ def gen_schedule(rng, n, boundaries, allow_empty=True, max_chunks=6000,
             sizes = [upto, n - upto] if n > upto else [n]
     else:
         raise ValueError(fam)
-    return fam, _maybe_empty(rng, rle(sizes), allow_empty)
+    return fam, _maybe_empty(rng, rle(sizes), allow_empty, max_chunks)
 
 
-def _maybe_empty(rng, r, allow_empty):
-    """Interleave a few empty chunks (swarm: in about a quarter of runs)."""
+STALL_RUNS = (200, 1500, 4000)
+
+
+def _maybe_empty(rng, r, allow_empty, max_chunks=6000):
+    """Interleave a few empty chunks (swarm: in about a quarter of runs);
+    now and then the source stalls: it has nothing to deliver many times in
+    a row before the stream goes on."""
     if not allow_empty or rng.random() > 0.25:
         return r
     sizes_n = n_chunks(r)
+    if rng.random() < 0.08:
+        k = rng.choice(STALL_RUNS)
+        if sizes_n + k <= max_chunks:
+            at = rng.randint(0, len(r))
+            return _rle_norm(r[:at] + [[0, k]] + r[at:])
     if sizes_n > 4000:
         # put empties at the ends only (cheap)
         return [[0, 1]] + r + [[0, 1]]
@@ -140,6 +150,16 @@ def _maybe_empty(rng, r, allow_empty):
     for _ in range(rng.randint(1, 3)):
         sizes.insert(rng.randint(0, len(sizes)), 0)
     return rle(sizes)
+
+
+def _rle_norm(r):
+    out = []
+    for size, cnt in r:
+        if out and out[-1][0] == size:
+            out[-1][1] += cnt
+        else:
+            out.append([size, cnt])
+    return out
 
 
 def signature(r, boundaries):
